@@ -997,13 +997,20 @@ fn process_fn(src_with_attrs: &str, d: &Dir, loc: &Located) -> FnOut {
     if !had_body {
         die("unsupported", &format!("{} has no body", d.item));
     }
-    // 2. unit-specific textual substitutions (R0) — each must match exactly once
+    // 2. unit-specific textual substitutions (R0) — each must match exactly once; when the exact text is not there the
+    //    match is retried with all white space ignored (rustfmt re-flowing a method chain is not a lost anchor)
     for (a, b) in &d.substs {
         let n = text.matches(a.as_str()).count();
-        if n != 1 {
+        if n == 1 {
+            text = text.replacen(a.as_str(), b, 1);
+        } else if n == 0 {
+            match find_ignoring_space(&text, a) {
+                Ok(r) => text.replace_range(r, b),
+                Err(k) => die("anchor-lost", &format!("{}: subst text occurs {} times ({} ignoring white space): {:?}", d.item, n, k, a)),
+            }
+        } else {
             die("anchor-lost", &format!("{}: subst text occurs {} times: {:?}", d.item, n, a));
         }
-        text = text.replacen(a.as_str(), b, 1);
         *rules.entry("R0".into()).or_insert(0) += 1;
     }
     // 3. rewrite rules to fixpoint
@@ -1131,6 +1138,17 @@ fn process_fn(src_with_attrs: &str, d: &Dir, loc: &Located) -> FnOut {
                 }
                 positions.extend(pos);
             }
+            if positions.is_empty() && !text.contains(a.anchor.as_str()) {
+                // the exact text is nowhere: retry with white space ignored (a re-flowed statement is not a lost anchor)
+                let hits = all_ignoring_space(&text, &a.anchor);
+                if a.occurrence == 0 {
+                    positions = hits;
+                } else if a.occurrence > 0 {
+                    positions.extend(hits.get(a.occurrence as usize - 1).copied());
+                } else if hits.len() >= (-a.occurrence) as usize {
+                    positions.push(hits[hits.len() - (-a.occurrence) as usize]);
+                }
+            }
             if positions.is_empty() {
                 // a lost *hint* anchor does not stop the run: the hint is dropped and recorded; the caller
                 // treats a proof that then fails in this function as undecided, not as a violation
@@ -1207,6 +1225,58 @@ fn load_with_includes(path: &str, depth: usize) -> String {
 
 fn json_str(s: &str) -> String {
     serde_json::to_string(s).unwrap()
+}
+
+/// the byte range of the single occurrence of `pat` in `text` when white space is ignored on both sides; Err(count) otherwise
+fn find_ignoring_space(text: &str, pat: &str) -> Result<Range<usize>, usize> {
+    let p: Vec<u8> = pat.bytes().filter(|b| !b.is_ascii_whitespace()).collect();
+    if p.is_empty() {
+        return Err(0);
+    }
+    let mut idx: Vec<usize> = Vec::new();
+    let mut t: Vec<u8> = Vec::new();
+    for (i, b) in text.bytes().enumerate() {
+        if !b.is_ascii_whitespace() {
+            idx.push(i);
+            t.push(b);
+        }
+    }
+    let mut hits: Vec<usize> = Vec::new();
+    if t.len() >= p.len() {
+        for i in 0..=(t.len() - p.len()) {
+            if t[i..i + p.len()] == p[..] {
+                hits.push(i);
+            }
+        }
+    }
+    if hits.len() != 1 {
+        return Err(hits.len());
+    }
+    let st = idx[hits[0]];
+    let en = idx[hits[0] + p.len() - 1] + 1;
+    Ok(st..en)
+}
+
+/// start offsets of every occurrence of `pat` in `text` when white space is ignored on both sides
+fn all_ignoring_space(text: &str, pat: &str) -> Vec<usize> {
+    let p: Vec<u8> = pat.bytes().filter(|b| !b.is_ascii_whitespace()).collect();
+    let mut idx: Vec<usize> = Vec::new();
+    let mut t: Vec<u8> = Vec::new();
+    for (i, b) in text.bytes().enumerate() {
+        if !b.is_ascii_whitespace() {
+            idx.push(i);
+            t.push(b);
+        }
+    }
+    let mut hits: Vec<usize> = Vec::new();
+    if !p.is_empty() && t.len() >= p.len() {
+        for i in 0..=(t.len() - p.len()) {
+            if t[i..i + p.len()] == p[..] {
+                hits.push(idx[i]);
+            }
+        }
+    }
+    hits
 }
 
 fn census(path: &str, word: &str) -> usize {
